@@ -75,6 +75,8 @@ var socketArgOK = map[string]bool{
 	"bufio.NewWriter":           true,
 	"bufio.NewReaderSize":       true,
 	"bufio.NewWriterSize":       true,
+	"bufio.(*Reader).Reset":     true, // re-points a buffered reader at the socket: a constructor in effect (who may do that to the
+	"bufio.(*Writer).Reset":     true, // connection's pair is rule C05-owner / C13-pair)
 	"crypto/tls.Server":         true,
 	"time.AfterFunc":            false,
 	"context.AfterFunc":         false,
